@@ -112,13 +112,19 @@ Definition C22_monitor_accepts_all_full : Prop := monitor22_accepts_all.
        WINDOW (offset, size) widened by the combined accuracy - the monitor finds it with search_k, identifies the update
        by applied_update and consumes it - then the connection continues with the new parameters (monitor phase PBlind
        until the next packet), and further updates may follow.
+       The instant may fall on a MISSED event (timeout() applies the update: missed_instant).  A delivered update that is
+       REFUSED (instant passed or the next event: link dropped with 0x28, refused_event) and an update whose parameters are
+       found INVALID at its instant by a connection event (link dropped, dropped_event) end the connection: the monitor
+       accepts the drop and the run goes on with advertising and new connections.
    The environment is an executable predicate computed along the model's run: op_ok22 on each operation, no model crash,
    calm22 = nothing is left in the receive queue after the operation, still22 = an update that is delivered or waiting
-   either still waits afterwards or was applied by a connection event.
-   OUTSIDE, exactly: (1) a delivered update that is REFUSED (instant passed or instant = next event: the link is
-   dropped with 0x28), an update whose parameters are found invalid at its instant (link dropped), an instant that falls
-   on a MISSED event (timeout(); the monitor has a branch for it, not proved), PDUs delivered while an update waits (they
-   stay in the receive queue: calm22), a control PDU held back because the script withholds the transmit buffer;
+   afterwards still waits, or was applied (connection event or missed event), or was refused at delivery (refusal22), or
+   was found invalid at its instant by a connection event.
+   OUTSIDE, exactly: (1) an update found invalid at an instant that falls on a MISSED event: timeout() closes the link with
+   0x08 before the supervision timeout and the monitor REJECTS that trace (clause supervision_early) - it is the known
+   finding C22-invalid-update, not a gap of the proof; an update that is delivered and applied within the same
+   end_event() (instant = delivery + 2 with latency); PDUs delivered while an update waits (they stay in the receive
+   queue: calm22); a control PDU held back because the script withholds the transmit buffer;
    (2) LL_CHANNEL_MAP_IND, LL_PHY_UPDATE_IND (instants of C21), LL_TERMINATE_IND; (3) data PDUs (LLID 1 / 2) and PDUs inside
    events of a link layer with encryption support; (4) the API calls (disconnect, connection parameter update / request,
    PHY update, version request, cancelation).
@@ -201,6 +207,28 @@ Example C22_environment_with_applied_updates_is_satisfiable :
   /\ deferred (lfinal cfg_base (linit cfg_base) session22_update_applied) = None
   /\ (exists it d, nth_error (trace_of cfg_base session22_update_applied) 7 = Some (Ev 0 [], OItems it) /\ In (ICb (EvChanged d)) it).
 Proof. exact session22_update_applied_env. Qed.
+Example C22_environment_with_an_instant_on_a_missed_event :
+  env22 cfg_base (linit cfg_base) session22_instant_missed = true
+  /\ interval (tm (lfinal cfg_base (linit cfg_base) session22_instant_missed)) = 100000
+  /\ (exists it d, nth_error (trace_of cfg_base session22_instant_missed) 6 = Some (Timeout, OItems it) /\ In (ICb (EvChanged d)) it).
+Proof. exact session22_instant_missed_env. Qed.
+Example C22_environment_with_a_refused_update :
+  env22 cfg_base (linit cfg_base) session22_update_refused = true
+  /\ (exists it, nth_error (trace_of cfg_base session22_update_refused) 4 = Some (Ev 0 [upd_pdu 2 3 80 0 200 1], OItems it)
+                 /\ In (ICb (EvClosed 40)) it /\ has_adv22 it = true).
+Proof. exact session22_update_refused_env. Qed.
+Example C22_environment_with_an_update_invalid_at_its_instant :
+  env22 cfg_base (linit cfg_base) session22_update_invalid = true
+  /\ (exists it, nth_error (trace_of cfg_base session22_update_invalid) 6 = Some (Ev 0 [], OItems it)
+                 /\ In (ICb (EvClosed 8)) it /\ has_adv22 it = true).
+Proof. exact session22_update_invalid_env. Qed.
+(* ... and what stays outside by necessity: the same invalid update with its instant on a MISSED event - timeout() closes the
+   link with 0x08 before the supervision timeout; the monitor rejects the model's own trace (clause 3, supervision_early):
+   the known finding C22-invalid-update; the environment predicate is false for that run *)
+Example C22_invalid_update_on_a_missed_instant_is_rejected :
+  let ops := [Run; connect_with 3 11 24 0 72; Ev 0 []; Ev 0 [upd_pdu 2 3 5 0 200 5]; Ev 0 []; Ev 0 []; Timeout] in
+  mrun22 cfg_base (minit22 cfg_base) (trace_of cfg_base ops) = Bad 3 /\ env22 cfg_base (linit cfg_base) ops = false.
+Proof. vm_compute. split; reflexivity. Qed.
 Example C22_environment_is_satisfiable :
   cfg_ok22 cfg_base = true /\ env22 cfg_base (linit cfg_base) session22_ok = true.
 Proof. split; vm_compute; reflexivity. Qed.
